@@ -212,18 +212,28 @@ class Interp:
 
     def _bind(self, fn, args, kwargs):
         a = fn.args
-        if a.vararg or a.kwarg:
-            raise Unsupported("*args/**kwargs")
         pos = list(a.posonlyargs) + list(a.args)
         env = {}
         if len(args) > len(pos):
-            raise Raised("TypeError", "too many positional")
+            if not a.vararg:
+                raise Raised("TypeError", "too many positional")
+        if a.vararg:
+            env[a.vararg.arg] = tuple(args[len(pos):])
         for p, v in zip(pos, args):
             env[p.arg] = v
+        known = {p.arg for p in pos} | {p.arg for p in a.kwonlyargs}
+        extra_kw = {}
         for k, v in kwargs.items():
             if k in env:
                 raise Raised("TypeError", "duplicate")
+            if k not in known:
+                if not a.kwarg:
+                    raise Raised("TypeError", f"unexpected keyword {k}")
+                extra_kw[k] = v
+                continue
             env[k] = v
+        if a.kwarg:
+            env[a.kwarg.arg] = extra_kw
         nd = len(a.defaults)
         for i, p in enumerate(pos):
             if p.arg not in env:
